@@ -149,10 +149,31 @@ func hC05Resp() {
 			script.trailersOnly = verifChoose("trailersOnly", 2) == 1
 		}
 	}
+	statusKeyInMetadata := false
+	if target == ProtocolConnect && !unaryKind && isErr && (cfg.client == cfGRPC || cfg.client == cfGRPCWeb) && verifChoose("statusKeyInMetadata", 2) == 1 {
+		// a Connect streaming backend whose end-of-stream metadata uses the name of another protocol's status key
+		statusKeyInMetadata = true
+		script.trailerHdrs["grpc-status"] = []string{"0"}
+	}
 	p.backend.script = script
 	p.serve([]wireMsg{{abstract: []byte{'q'}}})
 	if target == ProtocolConnect && unaryKind && p.backend.rec.method == "GET" {
 		verifOutside("Connect GET towards the backend is decided in C19")
+	}
+	if statusKeyInMetadata && cfg.client == cfGRPC {
+		verifReach("status-key-in-metadata")
+		n := 0
+		for k, vs := range p.sink.trailers() {
+			if http.CanonicalHeaderKey(k) == "Grpc-Status" {
+				n += len(vs)
+			}
+		}
+		for k, vs := range p.sink.headSnap {
+			if http.CanonicalHeaderKey(k) == "Grpc-Status" {
+				n += len(vs)
+			}
+		}
+		verifAssert(n == 1, "C05: backend metadata named like a status key does not become a second status for a gRPC client")
 	}
 	out := refParseClientResponse(cfg, p.sink, p.backend.rec.calls > 0)
 	verifObsInt("status", int64(p.sink.status))
